@@ -462,6 +462,45 @@ def c18_run(ctx):
                         problems.append((f"record-value:{m}", f"record.{m}={getattr(rec, m)} object.{m}={getattr(o, m)} ({fl}:{sig})"))
                 except Exception as e:  # noqa: BLE001
                     problems.append((f"record-raises:{m}", f"{type(e).__name__}: {str(e)[:80]}"))
+        # ... also for every vector-valued method: same flavor and dimension (record name), same coordinate system, same values
+        rec_calls = UN_VEC + [("to_Vector3D", []), ("to_2D", []), ("to_3D", []), ("to_4D", []), ("to_xy", []), ("to_rhophi", []), ("to_rhophiz", []),
+                              ("to_xythetatau", []), ("to_xyzt", []), ("rotateY", [0.3]), ("scale2D", [2.0]), ("neg2D", []), ("neg4D", []),
+                              ("like", [C.obj_vec("g", ("xy",), [1.0, 2.0])]), ("like", [C.obj_vec("m", ("rhophi", "eta"), [1.0, 2.0, 0.5])]),
+                              ("like", [C.obj_vec("g", ("xy", "z", "tau"), [1.0, 2.0, 3.0, 0.5])]),
+                              ("add", [o]), ("subtract", [o])] + ([("cross", [o])] if dim == 3 else []) + ([("boost_p4", [o])] if dim == 4 else [])
+        if fl == "m":
+            rec_calls += [("to_pxpy", []), ("to_ptphi", []), ("to_ptphieta", []), ("to_pxpypzenergy", []), ("to_ptphietamass", [])]
+        for m, a in rec_calls:
+            if not hasattr(o, m):
+                continue
+            n += 1
+            try:
+                ao = getattr(o, m)
+                want = ao(*a) if callable(ao) else ao
+            except Exception:  # noqa: BLE001
+                continue
+            try:
+                ar = getattr(rec, m)
+                got = ar(*a) if callable(ar) else ar
+            except Exception as e:  # noqa: BLE001
+                problems.append((f"record-raises:{m}", f"{m} on a record selected from a jagged {fl}:{sig} array: {type(e).__name__}: {str(e)[:80]}"))
+                continue
+            if not isinstance(got, ak.Record):
+                problems.append((f"record-result:{m}", f"{m} on a record returns {type(got).__name__}, the object gives {type(want).__name__}"))
+                continue
+            wname = ("Momentum" if isinstance(want, vector.Momentum) else "Vector") + {2: "2D", 3: "3D", 4: "4D"}[len(C.sig_of(want)) + 1]
+            gname = got.layout.parameter("__record__")
+            if gname != wname:
+                problems.append((f"record-flavor-dim:{m}", f"{m} on a record selected from a {fl}:{sig} array returns a {gname} record; the equivalent object gives {type(want).__name__}"))
+                continue
+            gf = [GEN.get(f, f) for f in ak.fields(got) if f in COORD_FIELDS]
+            wf = list(C.signames(C.sig_of(want)))
+            if gf != wf:
+                problems.append((f"record-system:{m}", f"{m} on a record ({fl}:{sig}) returns coordinates {gf}; the equivalent object gives {wf}"))
+                continue
+            gv = [float(got[f]) for f in ak.fields(got) if f in COORD_FIELDS]
+            if not all(close64(x, y, 10.0) for x, y in zip(gv, C.stored(want))):
+                problems.append((f"record-value:{m}", f"{m} on a record ({fl}:{sig}): {gv}; the equivalent object gives {list(C.stored(want))}"))
         if len(samples) < 2:
             samples.append({"sig": sig, "flavor": fl, "layouts": list(layouts), "type_of_nested3": str(ak.type(layouts["nested3"]))})
     raw, nraw = raw_momentum_records(ctx)
